@@ -184,6 +184,7 @@ def run(ck, b, n=2000, seed=None):
             if e[0] == "GU":
                 if f[1] == "panic":
                     stats["panics"] += 1
+                    viol.append(dict(key="unify-total", scenario=sc.lines, arg=spec(e[1]), param=spec(e[2]), implementation=il, specification="UnifyGenericType never panics"))
                 if e[3] is not None:
                     # the call-site test: Equal(result, arg)
                     acc = f[1] not in ("nil", "panic") and result_equal(sc, f[1], e[1])
